@@ -106,7 +106,7 @@ def c13_case(r):
         if not B64_ENC.dom(p):
             return None
         t = base64.b64encode(p)
-        brk = r.choice([b"\n", b"\r\n", b"&#13;&#10;", b"&#xD;&#10;"])
+        brk = r.choice([b"\n", b"\r\n", b"&#13;&#10;", b"&#xD;&#10;", b"&#xD;&#xA;", b"&#xA;", b"&#13;", b"&#10;\n", b"<\x00  \x00", b"&#xD;&#xA;\r\n"])
         width = r.choice([8, 16, 20, 64])
         chunks = [t[i:i + width] for i in range(0, len(t), width)]
         if len(chunks[-1].rstrip(b"=")) < 2 or any(len(c.rstrip(b"=")) < 4 for c in chunks[:-1]):
@@ -150,7 +150,10 @@ def c13_xor_case(r):
         blob = layers.BY_NAME["FromHexString"].enc(p, r)
     else:
         blob = layers.BY_NAME["psbytes"].enc(p, r)
-    tail = r.choice([b" -bxor ", b" -bxor", b" -xor ", b" -BXOR "]) + str(key).encode()
+    keytext = str(key).encode()
+    if key < 100 and r.random() < 0.15:
+        keytext = keytext.rjust(3, b"0")  # up to three digits, leading zeros included
+    tail = r.choice([b" -bxor ", b" -bxor", b" -xor ", b" -BXOR ", b" -bxor\t", b"\n-bxor\n", b" -Xor  "]) + keytext
     pre = netgen.offsets_prefix(r)
     if form != "bytes" and r.random() < 0.35:
         # the key applies to every conversion call in the text: a second call of the other form, same payload
@@ -177,7 +180,7 @@ def c14_case(r):
         return rec
     if k == 1:  # leading zeros in decimal references
         p = rand_payload(r, r.randint(5, 10), bytes(range(256)))
-        blob = b"".join((b"&#%03d;" % c) if r.random() < 0.5 and c < 200 else (b"&#%d;" % c) for c in p)
+        blob = b"".join((b"&#%03d;" % c) if r.random() < 0.5 and c < 200 else (b"&#X%02x;" % c) if r.random() < 0.2 else (b"&#%d;" % c) for c in p)
         return rec_single(r, "xml-leading-zero", "", "unescape.xml", blob, p)
     if k == 2:  # hex bytes spelling decimal references (must be decoded once only)
         inner = b"&#%d;" % r.randrange(256)
@@ -201,6 +204,13 @@ def c14_case(r):
         blob = chars.decode("latin-1").encode("utf-16-le")
         plain = chars.decode("latin-1").encode("utf-8")
         # also right behind byte pairs that read as a byte-order mark
+        if r.random() < 0.25:
+            # several runs joined by one or two NUL characters are one expression
+            second = bytes(r.choice(allowed) for _ in range(r.choice([7, 8, 12])))
+            gap = r.choice([b"\x00", b"\x00\x00"])
+            chars = chars + gap + second
+            blob = chars.decode("latin-1").encode("utf-16-le")
+            plain = chars.decode("latin-1").encode("utf-8")
         delims = r.choice([(b" ", b" "), (b" ", b" "), (b"\xff\xfe", b" "), (b"\xfe\xff", b" "), (b"\xff", b"\xff"), (b"\x01\x02", b"\x03")])
         return rec_single(r, "utf16-latin1", "", "codec.uft-16", blob, plain, delims)
     if k == 6:
@@ -270,9 +280,9 @@ def c15_case(r):
         q = r.choice([b'"', b"'"])
         if k == 1:
             head = bytes(c ^ 0x20 if r.random() < 0.3 and chr(c).isalpha() else c for c in r.choice([b"reverse(", b"reversed("]))
-            return rec_single(r, "reverse", "string", "reverse", head + r.choice([b"", b" "]) + q + p[::-1] + q + r.choice([b"", b" "]) + b")", p)
+            return rec_single(r, "reverse", "string", "reverse", head + layers.pad(r) + q + p[::-1] + q + layers.pad(r) + b")", p)
         head = bytes(c ^ 0x20 if r.random() < 0.3 and chr(c).isalpha() else c for c in b"StrReverse(")
-        return rec_single(r, "StrReverse", "vba.string", "vba.reverse", head + r.choice([b"", b"\t"]) + q + p[::-1] + q + b")", p)
+        return rec_single(r, "StrReverse", "vba.string", "vba.reverse", head + layers.pad(r) + q + p[::-1] + q + layers.pad(r) + b")", p)
     # replacement dialects
     x = literal(r, 1, 14)
     a = r.choice([literal(r, 1, 3), x[r.randrange(len(x)):][:r.randint(1, 3)] or b"a", b"aa", x[:1].swapcase() or b"a"])
@@ -283,7 +293,7 @@ def c15_case(r):
     if not plain:
         return None
     q1, q2, q3 = (r.choice([b'"', b"'"]) for _ in range(3))
-    ws = lambda: r.choice([b"", b" ", b"  "])  # noqa: E731
+    ws = lambda: layers.pad(r)  # noqa: E731
     if k == 3:
         blob = q1 + x + q1 + b".replace(" + ws() + q2 + a + q2 + ws() + b"," + ws() + q3 + b + q3 + ws() + b")"
         return rec_single(r, "replace", "string", "replace", blob, plain)
